@@ -455,7 +455,7 @@ func (p *propC06) Prepare(seed uint64, tier string) int {
 	}
 	p.count = 600000
 	if isThorough(tier) {
-		p.count = 8000000
+		p.count = 5000000
 	}
 	return p.count
 }
